@@ -2,6 +2,7 @@ import VlsModel.Model.MutualClose
 import VlsModel.Gen.FnSimple
 import VlsModel.Gen.FnEnforceVal
 import VlsModel.Gen.FnSimpleClose
+import VlsModel.Gen.FnChannelClose
 import VlsModel.Lemmas.FnGen
 /-
 C07 — the epsilon comparisons of the mutual-close model (`MutualClose.outsideEps`, `minToHolder`,
@@ -273,6 +274,105 @@ theorem C07_fn_validate_mutual_close_tx {W D : Type} (p : Policy) (s : Setup) (e
             simp only [ha, hup, ho, hb1, hb2, Option.map_none, Option.map_some, Option.isNone_none, Option.isNone_some, if_true, if_false, Bool.false_eq_true, valueChecks, destCheck, whenE, okOr_some, Rs.bind_ok, pure_bind, Bool.and_true, Bool.and_false, hC', hA'] <;>
             simp only [e1, e2, e3, q1, q3, relK_bind, relK_checked_add, hfee, relK_ok, relK_pure, bind_assoc, pure_bind] <;>
             (simp [check_false, bind_unit_ok, bne_dec, ok_bind_K]; try rfl)
+
+/-- **`OnchainValidator::validate_mutual_close_tx` over the simple validator** (what `OnchainValidatorFactory` builds):
+    the pass-through hands every argument on unchanged, in particular the two values in their order, so the composition
+    is `validateMutualClose` as well -/
+theorem C07_fn_onchain_validate_mutual_close_tx {W D : Type} (p : Policy) (s : Setup) (e : EState) (a : Args)
+    (w : W) (path : D)
+    (extW : Nat → Nat → Option Nat → Option Nat → Gen.FnSimpleClose.ChannelSetup Nat → Nat)
+    (extC : W → D → Nat → Option Bool) (extA : W → Nat → D → Bool)
+    (hW : extW a.toHolder a.toCounterparty (a.holderScript.map (·.sid)) (a.cpScript.map (·.sid)) (toCS3 s) = closeWeight a)
+    (hC : ∀ o, a.holderScript = some o → extC w path o.sid = some o.canSpend)
+    (hA : ∀ o, a.holderScript = some o → extA w o.sid path = o.allowlisted)
+    (hv : s.channelValue ≤ Rs.U64_MAX) :
+    relK (Gen.FnSimpleClose.OnchainValidator.validate_mutual_close_tx
+            (fun _ wl st es th tc hs cs pt => Gen.FnSimpleClose.SimpleValidator.validate_mutual_close_tx (filt p) extW extC extA
+              (toV3 p) wl st es th tc hs cs pt)
+            ({ inner := () } : Gen.FnSimpleClose.OnchainValidator Unit) w (toCS3 s) (toES3 e)
+            a.toHolder a.toCounterparty (a.holderScript.map (·.sid)) (a.cpScript.map (·.sid)) path)
+      = validateMutualClose p s e a := by
+  unfold Gen.FnSimpleClose.OnchainValidator.validate_mutual_close_tx
+  exact C07_fn_validate_mutual_close_tx p s e a w path extW extC extA hW hC hA hv
+
+/-! ## the two entry points in `channel.rs` (area `Gen.FnChannelClose`)
+
+Externals: the validator (`self.validator().…`), the node handle, LDK's `ClosingTransaction::new` (`ext_let_tx`, a function
+of exactly the two values, the two scripts and the channel), the signer (`keys.sign_closing_transaction`, `none` = error),
+`persist`.  The theorems read off, for ANY instantiation of them, what a returned signature implies: the validator accepted
+exactly these arguments, the signed transaction is the one built from the validated values (phase 2) / the recomposed one the
+validator returned (phase 1), and the state that is handed to `persist` -- and left in memory -- is marked closed. -/
+
+section ChannelClose
+open Gen.FnChannelClose
+
+variable {IMS SECP SB DP SIG VAL NH CT TXO : Type}
+
+theorem C07_fn_sign_mutual_close_tx_phase2
+    (extV : Channel IMS SECP → VAL) (extN : Channel IMS SECP → NH)
+    (extVal : VAL → NH → ChannelSetup → EnforcementState → Nat → Nat → Option SB → Option SB → DP → Rs.M Unit)
+    (extTx : Nat → Nat → Option SB → Option SB → Channel IMS SECP → CT)
+    (extSign : IMS → CT → SECP → Option SIG) (extPersist : Channel IMS SECP → Rs.M Unit)
+    (ch : Channel IMS SECP) (th tc : Nat) (hs cs : Option SB) (path : DP) (ch' : Channel IMS SECP) (sig : SIG)
+    (h : Channel.sign_mutual_close_tx_phase2 extV extN extVal extTx extSign extPersist ch th tc hs cs path = .ok (ch', sig)) :
+    extVal (extV ch) (extN ch) ch.setup ch.enforcement_state th tc hs cs path = .ok ()
+    ∧ extSign ch.keys (extTx th tc hs cs ch) ch.secp_ctx = some sig
+    ∧ ch' = { ch with enforcement_state := { ch.enforcement_state with channel_closed := true } }
+    ∧ ch'.enforcement_state.channel_closed = true
+    ∧ extPersist ch' = .ok () := by
+  unfold Channel.sign_mutual_close_tx_phase2 at h
+  cases hv : extVal (extV ch) (extN ch) ch.setup ch.enforcement_state th tc hs cs path with
+  | error e => simp [hv, bind, Except.bind] at h
+  | ok u =>
+    cases hsg : extSign ch.keys (extTx th tc hs cs ch) ch.secp_ctx with
+    | none => simp [hv, hsg, Rs.okOr, Rs.fail, bind, Except.bind] at h
+    | some sg =>
+      cases hp : extPersist { ch with enforcement_state := { ch.enforcement_state with channel_closed := true } } with
+      | error e => simp [hv, hsg, hp, Rs.okOr, bind, Except.bind, pure, Except.pure] at h
+      | ok u2 =>
+        simp [hv, hsg, hp, Rs.okOr, bind, Except.bind, pure, Except.pure] at h
+        obtain ⟨h1, h2⟩ := h
+        subst h1; subst h2
+        exact ⟨rfl, rfl, rfl, rfl, hp⟩
+
+theorem C07_fn_sign_mutual_close_tx
+    (extV : Channel IMS SECP → VAL) (extN : Channel IMS SECP → NH)
+    (extDec : VAL → NH → ChannelSetup → EnforcementState → Transaction TXO → List DP → Rs.M CT)
+    (extSign : IMS → CT → SECP → Option SIG) (extPersist : Channel IMS SECP → Rs.M Unit)
+    (ch : Channel IMS SECP) (tx : Transaction TXO) (opaths : List DP) (ch' : Channel IMS SECP) (sig : SIG)
+    (h : Channel.sign_mutual_close_tx extV extN extDec extSign extPersist ch tx opaths = .ok (ch', sig)) :
+    opaths.length = tx.output.length
+    ∧ (∃ recomposed, extDec (extV ch) (extN ch) ch.setup ch.enforcement_state tx opaths = .ok recomposed
+        ∧ extSign ch.keys recomposed ch.secp_ctx = some sig)
+    ∧ ch' = { ch with enforcement_state := { ch.enforcement_state with channel_closed := true } }
+    ∧ ch'.enforcement_state.channel_closed = true
+    ∧ extPersist ch' = .ok () := by
+  unfold Channel.sign_mutual_close_tx at h
+  by_cases hl : opaths.length = tx.output.length
+  · cases hd : extDec (extV ch) (extN ch) ch.setup ch.enforcement_state tx opaths with
+    | error e => simp [hl, hd, bind, Except.bind] at h
+    | ok rt =>
+      cases hsg : extSign ch.keys rt ch.secp_ctx with
+      | none => simp [hl, hd, hsg, Rs.okOr, Rs.fail, bind, Except.bind] at h
+      | some sg =>
+        cases hp : extPersist { ch with enforcement_state := { ch.enforcement_state with channel_closed := true } } with
+        | error e => simp [hl, hd, hsg, hp, Rs.okOr, bind, Except.bind, pure, Except.pure] at h
+        | ok u2 =>
+          simp [hl, hd, hsg, hp, Rs.okOr, bind, Except.bind, pure, Except.pure] at h
+          obtain ⟨h1, h2⟩ := h
+          subst h1; subst h2
+          exact ⟨hl, ⟨rt, rfl, hsg⟩, rfl, rfl, hp⟩
+  · simp [hl, Rs.fail] at h
+
+/-- non-vacuity: with an accepting validator, a signer and a persister that succeed, phase 2 returns a signature -/
+example :
+    Channel.sign_mutual_close_tx_phase2 (InMemorySigner := Unit) (Secp256k1 := Unit) (ScriptBuf := Nat)
+        (DerivationPath := Unit) (Signature := Nat) (Validator := Unit) (NodeHandle := Unit) (ClosingTransaction := Nat × Nat)
+        (fun _ => ()) (fun _ => ()) (fun _ _ _ _ _ _ _ _ _ => Except.ok ()) (fun th tc _ _ _ => (th, tc))
+        (fun _ t _ => some (t.1 + t.2)) (fun _ => Except.ok ()) ⟨(), (), ⟨false⟩, ⟨⟩⟩ 5 7 none none ()
+      = Except.ok (⟨(), (), ⟨true⟩, ⟨⟩⟩, 12) := by rfl
+
+end ChannelClose
 
 /-! ### non-vacuity: a concrete, accepted close (funder, both outputs present, wallet-spendable holder script) -/
 
